@@ -205,4 +205,6 @@ def rules(t):
     out.append(W3.wire_narrowing(t, "C16.h"))
     out.append(W3.decoder_append_only(t, "C16.i"))
     out.append(W3.reader_identity(t, "C16.j"))
+    import rules.netsize as NS_
+    out.append(NS_.decoder_floor_rule(t, "C16.k"))
     return out
